@@ -295,14 +295,24 @@ func c20concCase(ctx *Ctx) {
 		args = append(args, t.wires...)
 		parts = append(parts, fmt.Sprintf("T%d:%s", ti, strings.Join(got[ti], " ")))
 	}
-	ctx.Add("heap.conc", strings.Join(parts, " ; ")+" | complete arena=solo global=arena shared-untouched", args...)
+	outside := shared.outside
+	for _, t := range threads {
+		if t.h.outside != "" {
+			outside = t.h.outside
+		}
+	}
+	if outside != "" {
+		ctx.Tag("conc:outside-model:" + outside) // judged by (S) only
+	} else {
+		ctx.Add("heap.conc", strings.Join(parts, " ; ")+" | complete arena=solo global=arena shared-untouched", args...)
+	}
 	key, _ := all()
 	ctx.Eval("conc "+key, nSteps >= 4 && nMut >= 1)
 	ctx.Tag(fmt.Sprintf("conc:goroutines=%d", nT))
 }
 
 func c20conc(ctx *Ctx) {
-	for i := 0; i < ctx.N(250, 6000); i++ {
+	for i := 0; i < ctx.N(300, 6000); i++ {
 		c20concCase(ctx)
 	}
 }
